@@ -33,10 +33,11 @@ RULE = (
 ASSUMPTIONS = [
     "a fault that does not raise (e.g. a negative weight in fill) is legal behaviour; the non-negativity invariant is then suspended for that object",
     "after a raising call new empty bins (adaptive growth before the failure) and a lossless dtype promotion are allowed",
+    "accumulated contents / squared errors beyond the int64 range wrap around as numpy integers do (out of domain): generated weights are either small or so large that a single square already leaves int64 / float64",
 ]
 
 FAULTS = ["iadd_other_bins", "iadd_other_dim", "iadd_scalar", "iadd_list", "iadd_str", "isub_larger", "isub_slightly_larger", "isub_none", "imul_negative", "imul_str", "imul_list",
-          "imul_hist", "idiv_zero", "idiv_negative", "idiv_str", "idiv_hist", "fill_wrong_shape", "fill_weight_str", "fill_n_wrong_shape",
+          "imul_hist", "idiv_zero", "idiv_negative", "idiv_str", "idiv_hist", "fill_wrong_shape", "fill_weight_str", "fill_weight_huge", "fill_n_wrong_shape",
           "fill_n_weights_length", "fill_n_weights_after_nan", "fill_n_weights_str", "fill_n_growth_bad_weights", "fill_n_infinite", "dtype_invalid", "dtype_lossy", "merge_bad_amount", "merge_bad_axis", "merge_gap", "index_bad",
           "set_frequencies_shape", "set_frequencies_negative", "set_errors2_shape", "set_errors2_negative", "projection_bad", "collection_mismatch",
           "normalize_empty_copy"]
@@ -52,7 +53,7 @@ def content_map(h):
         return None
     for idx in zip(*np.nonzero((f != 0) | (e != 0))) if f.size else []:
         key = tuple((float(bins[a][i][0]), float(bins[a][i][1])) for a, i in enumerate(idx))
-        out[key] = (float(f[idx]), float(e[idx]))
+        out[key] = (f[idx].item(), e[idx].item())  # (Python numbers: int64 contents compare exactly with their float images)
     s = snapshot(h, stats=False, meta=False)
     return out, s["missed"]
 
@@ -237,6 +238,9 @@ def check_history(case, ctx: Ctx):
             attempt(h.fill, bad)
         elif name == "fill_weight_str":
             attempt(h.fill, point([0.5, 0.5, 0.5]), "heavy")
+        elif name == "fill_weight_huge":
+            # a weight whose square does not fit (int64 / float64); accepted or refused, never half booked
+            attempt(h.fill, point([0.5, 0.5, 0.5]), op[1])
         elif name == "fill_n_wrong_shape":
             bad = np.zeros((2, d + 1)) if d > 1 else None
             if bad is None:
@@ -302,7 +306,7 @@ def check_history(case, ctx: Ctx):
             elif how == "axis_name":
                 attempt(lambda: h.merge_bins(amt, axis=h.axis_names[gapped[0]], inplace=True))
             elif how == "min_frequency":
-                attempt(lambda: h.merge_bins(min_frequency=float(np.asarray(h.frequencies).sum()) + 1.0, axis=gapped[0], inplace=True))
+                attempt(lambda: h.merge_bins(min_frequency=2.0 * float(np.asarray(h.frequencies).sum()) + 1.0, axis=gapped[0], inplace=True))
             else:
                 attempt(lambda: h.merge_bins(amt, inplace=True))
         elif name == "index_bad":
@@ -412,6 +416,8 @@ def one_op(draw):
         return [name, draw(st.sampled_from([None, "axis_index", "axis_name", "min_frequency"]))]
     if name in ("set_frequencies_negative", "set_errors2_negative"):
         return [name, draw(st.booleans())]
+    if name == "fill_weight_huge":
+        return [name, draw(st.sampled_from([2 ** 32, 2 ** 62, 1e200]))]
     if name == "merge_bad_axis":
         return [name, draw(st.sampled_from([7, -1, "no_such_axis", 1.5]))]
     return [name]
@@ -432,6 +438,16 @@ def histories(draw, tier="quick"):
 
         spec["err2"] = scale(spec["err2"] if spec["err2"] is not None else spec["freq"])
         ops.insert(draw(st.integers(0, len(ops))), ["dtype_lossy", draw(st.sampled_from(["int16", "int8", "int32"]))])
+    elif spec["dtype"] == "int32" and draw(st.integers(0, 2)) == 0:
+        # squared errors next to the limit of the narrow type while the contents are small: sums of bins
+        # (merging) must look at them too
+        big = draw(st.sampled_from([2 ** 30, 2 ** 30 + 12345, 2 ** 31 - 1]))
+
+        def fill_big(x):
+            return [fill_big(y) for y in x] if isinstance(x, list) else big
+
+        spec["err2"] = fill_big(spec["freq"])
+        ops.insert(draw(st.integers(0, min(2, len(ops)))), ["merge", draw(st.sampled_from([2, 3]))])
     if adaptive and draw(st.booleans()):
         # an adaptive operand over another range joins in, and the histogram keeps growing afterwards
         i = draw(st.integers(0, len(ops)))
@@ -450,10 +466,100 @@ def histories(draw, tier="quick"):
     return {"spec": spec, "ops": ops}
 
 
+# ---------------------------------------------------------------------------------
+# histograms that start without any bin (adaptive): looked at, then filled
+
+
+def check_empty_start(case, ctx: Ctx):
+    import physt
+
+    d, w = case["d"], case["w"]
+    if d == 1:
+        h = ctx.call("h1(None, adaptive)", physt.h1, None, "fixed_width", bin_width=w, adaptive=True)
+    else:
+        h = ctx.call("h2(None, None, adaptive)", physt.h2, None, None, "fixed_width", bin_width=w, adaptive=True)
+    entered = []  # (point, weight)
+    for k, op in enumerate(case["ops"]):
+        name = op[0]
+        what = f"step {k} {name}"
+        before = content_map(h)
+        raised = None
+        try:
+            if name == "look":
+                # reading the bins of the (still empty) histogram is harmless
+                for b in h.binnings:
+                    {"bins": lambda b=b: b.bins, "numpy_bins": lambda b=b: b.numpy_bins, "bin_count": lambda b=b: b.bin_count,
+                     "edges": lambda b=b: (b.first_edge, b.last_edge) if b.bin_count else None}[op[1]]()
+                if op[1] == "edges":
+                    h.numpy_bins
+                if op[1] == "bins":
+                    h.bin_sizes if d > 1 else h.bin_widths
+            elif name == "fill":
+                pt = [x * w for x in op[1][:d]]
+                h.fill(pt[0] if d == 1 else pt, *([op[2]] if op[2] is not None else []))
+                entered.append((pt, 1 if op[2] is None else op[2]))
+            elif name == "fill_n":
+                pts = [[x * w for x in t[:d]] for t in op[1]]
+                arr = np.array(pts, dtype=float).reshape(len(pts), d)
+                h.fill_n(arr[:, 0] if d == 1 else arr)
+                entered.extend((pt, 1) for pt in pts)
+            elif name == "fill_bad":
+                # a point of the wrong dimension
+                h.fill([0.5] * (d + 1))
+            elif name == "copy_add":
+                o = h.copy()
+                h = h + o
+                entered = entered + entered
+        except Exception as exc:  # noqa: BLE001
+            raised = exc
+        after = content_map(h)
+        require(after is not None, "malformed", f"{what}: shapes differ after the call")
+        if name == "fill_bad":
+            require(raised is not None, "fault_accepted", f"{what}: a point of dimension {d + 1} was accepted")
+        elif raised is not None:
+            raise Violation("raised:" + type(raised).__name__, f"{what}: {str(raised)[:120]}", "")
+        if raised is not None:
+            require(after[0] == before[0] and same(after[1], before[1]), "failed_operation_changed_contents", f"{what}: {before} -> {after}")
+        invariants(h, what, True)
+        # every value entered sits in a bin that contains it, with its weight
+        want = {}
+        for pt, wt in entered:
+            key = tuple((math.floor(x / w + 1e-9) * w, (math.floor(x / w + 1e-9) + 1) * w) for x in pt)
+            want[key] = want.get(key, 0) + wt
+        got = {tuple((round(a / w), round(b / w)) for a, b in key): v[0] for key, v in after[0].items()}
+        want_ = {tuple((round(a / w), round(b / w)) for a, b in key): float(v) for key, v in want.items() if v != 0}
+        require(got == want_, "contents_after_growth", f"{what}: bins {got} expected {want_}")
+        snap = snapshot(h, stats=False, meta=False)
+        require(all(float(x) == 0 for x in np.ravel(np.asarray(snap["missed"], dtype=float))), "missed_after_growth", f"{what}: missed {snap['missed']} in an adaptive histogram")
+    ctx.label(f"d{d}", *["op_" + o[0] for o in case["ops"]])
+    names = [o[0] for o in case["ops"]]
+    ctx.nt("look" in names and any(n in ("fill", "fill_n") for n in names[names.index("look"):]))
+
+
+@st.composite
+def empty_start_cases(draw, tier="quick"):
+    ts = st.lists(st.sampled_from([0.5, 1.5, -2.5, 3.25, 0.0, 7.75, -0.25]), min_size=2, max_size=2)
+
+    def one():
+        name = draw(st.sampled_from(["look", "look", "fill", "fill", "fill_n", "fill_bad", "copy_add"]))
+        if name == "look":
+            return [name, draw(st.sampled_from(["bins", "numpy_bins", "bin_count", "edges"]))]
+        if name == "fill":
+            return [name, draw(ts), draw(st.sampled_from([None, None, 2, 0.5]))]
+        if name == "fill_n":
+            return [name, draw(st.lists(ts, min_size=0, max_size=3))]
+        return [name]
+
+    return {"d": draw(st.sampled_from([1, 1, 2])), "w": draw(st.sampled_from([1.0, 0.5, 2.0, 0.25])),
+            "ops": [one() for _ in range(draw(st.integers(1, 6)))]}
+
+
 FINDINGS = []
 
 SUBS = [
     Sub("history", lambda tier: histories(tier), check_history, quick=1600, thorough=8000),
+    Sub("empty_start", lambda tier: empty_start_cases(tier), check_empty_start, quick=300, thorough=2000),
 ]
 
 RULE += ' Also: operands of earlier steps stay under observation (well-formed, contents unchanged); an adaptive operand over another range (iadd_grown); factors 2**40 / 2**70 / 2**600; subtraction of one ulp more than is there, tiny negative assignments; gap merges through an explicit axis or min_frequency.'
+RULE += ' empty_start: adaptive 1-D / 2-D histograms created without data; reading bins / numpy_bins / edges, scalar and array fills, a point of the wrong dimension, adding a copy; every entered value must sit in a bin containing it; non-trivial = a fill after a look.'
